@@ -7,6 +7,7 @@ from props.c12 import _recipe_names
 from simkit import driver, gen, rw
 from simkit.prng import Rng
 from simkit.seams import digest_of
+from simkit.sched import Deadlock, FsYield, Scheduler
 from simkit.steps import StepBudgetExceeded, StepCounter
 
 PROPERTY = "C09"
@@ -80,15 +81,42 @@ def gen_case(rng: Rng, i: int, tier: str):
     if rng.sub("kind").chance(0.2):
         return _ref_tree_case(rng, tier)
     r = rng.sub("seq")
-    arc = rsess.gen_archive(rng.sub("arc"), tier, want_dirs=True if r.chance(0.5) else None, want_multi=True if r.chance(0.5) else None)
+    scheduled = rng.sub("sched").chance(0.35)
+    arc = rsess.gen_archive(rng.sub("arc"), tier, want_dirs=True if r.chance(0.5) else None, want_multi=True if (scheduled or r.chance(0.5)) else None,
+                            encrypted=False if scheduled else None)
     names = _recipe_names(arc)
     stub = [rw.Mem(n, b"", "file", None, None) for n in names]
     calls = []
     for _ in range(r.randint(1, 3)):
         calls.append({"op": "extract", "targets": rsess.gen_targets(r, stub), "recursive": r.chance(0.5), "as": r.pick(["list", "set"]),
                       "sink": r.pick(["factory", "path"]), "fresh": r.chance(0.5)})
-    return {"archive": arc, "calls": calls, "open": r.pick(["path", "stream", "anon"]),
+    case = {"archive": arc, "calls": calls, "open": r.pick(["path", "stream", "anon"]),
             "read": {"block": r.pick([16, 255, 4096, 32768, 1048576]), "chunk": r.pick([1, 15, 17, 4096, 128000000]), "bufsize": 8192}}
+    rs = rng.sub("sched")
+    if rs.chance(0.35):  # == scheduled (same sub-stream, same first draw)
+        # an archive opened by name is extracted by one worker thread per folder: run them under the baton-passing scheduler,
+        # every queue operation, device read and filesystem call a seeded scheduling point
+        case["open"] = "path"
+        case["sched"] = {"kind": "random", "stay": rs.pick([0.2, 0.5, 0.8]), "seed": rs.randrange(1 << 30)}
+        for c in calls:
+            if rs.chance(0.7):
+                c["sink"] = "path"
+        # directed: members of different folders that share a parent directory, selected without the directory itself, so
+        # that the workers (not the caller's thread) have to create it
+        from simkit import tree as _tree
+
+        byparent = {}
+        for j, s in enumerate(arc["sessions"]):
+            for op in s["ops"]:
+                nms = [n for n, k, _ in _tree.writeall_order(op["tree"], op["name"]) if k == "file"] if op["op"] == "writeall" else [op["name"]]
+                for n in nms:
+                    if "/" in n:
+                        byparent.setdefault(n.rsplit("/", 1)[0], {}).setdefault(j, []).append(n)
+        shared = [v for k, v in sorted(byparent.items()) if len(v) >= 2]
+        if shared and rs.chance(0.8):
+            grp = rs.pick(shared)
+            calls[0] = {"op": "extract", "targets": [rs.pick(grp[j]) for j in sorted(grp)], "recursive": False, "as": rs.pick(["list", "set"]), "sink": "path", "fresh": True}
+    return case
 
 
 def run_case(case):
@@ -118,6 +146,8 @@ def run_case(case):
     total = sum(len(m.data) for m in built.model if m.kind != "dir")
     budget = rw.read_budget(len(built.image), total)
     sess = None
+    sched = None
+    scheds_used = []
     try:
         full = None
         for ci, call in enumerate(case["calls"]):
@@ -126,12 +156,28 @@ def run_case(case):
                 if sess is None or call.get("fresh"):
                     if sess is not None:
                         sess.finish()
-                    sess = rsess.Session(built, case["open"], case["read"])
+                    if sched is not None:
+                        sched.shutdown()
+                        sched = None
+                    if case.get("sched"):
+                        strat = dict(case["sched"])
+                        sched = Scheduler(rng=Rng(strat["seed"] + ci, "sched"), strategy=strat, max_steps=400000)
+                        scheds_used.append(sched)
+                    sess = rsess.Session(built, case["open"], case["read"], sched=sched)
                 else:
                     sess.z.reset()
                 with StepCounter(budget) as sc:
-                    got = rsess.do_call(sess, call, outdir)
+                    if sched is not None:
+                        with FsYield(sched, scratch):
+                            got = rsess.do_call(sess, call, outdir)
+                    else:
+                        got = rsess.do_call(sess, call, outdir)
                 res["sim_steps"] += sc.steps
+            except Deadlock as e:
+                viol("extraction_deadlocked", "extract", "extract(%r, recursive=%r) under the scheduler: %s" % (call["targets"], call["recursive"], e))
+                sess.abandon()
+                sess = None
+                break
             except StepBudgetExceeded:
                 viol("call_never_returns", "extract", "extract(%r, recursive=%r) exceeded %d steps" % (call["targets"], call["recursive"], budget))
                 sess.abandon()
@@ -160,6 +206,10 @@ def run_case(case):
             sess.finish()
             sess = None
         res["probes"]["multi_folder_archive"] = 1 if built.nfolders > 1 else 0
+        res["probes"]["worker_threads_under_scheduler"] = 1 if any(len(sc_.threads) > 1 for sc_ in scheds_used) else 0
+        if scheds_used:
+            res["extra"]["scheduler_switches"] = sum(sc_.switches for sc_ in scheds_used)
+            res["extra"]["fs_call_yield_points"] = sum(1 for sc_ in scheds_used for e in sc_.events if isinstance(e[2], tuple) and e[2][0] == "fs")
         res["probes"]["solid_folder_with_skipped_predecessor"] = 1 if any(_position(built, m) in ("mid", "last") for c in case["calls"] for m in rsess.restrict(built.model, c["targets"], c["recursive"])) else 0
         res["digest"] = digest_of(log)
         res["sample"] = {"members": [(m.name, m.kind, len(m.data) if m.data is not None else None) for m in built.model][:10], "folders": built.nfolders,
@@ -171,6 +221,13 @@ def run_case(case):
                 sess.abandon()
             except Exception:
                 pass
+        for sc_ in scheds_used:
+            sc_.shutdown()
+        if scheds_used:
+            for v in res["violations"]:
+                if v.get("trace") is None:
+                    # the decisions the seeded scheduler took, one list per session (re-derived from case["sched"]["seed"] on replay)
+                    v["trace"] = {"sched": [list(sc_.choices) for sc_ in scheds_used]}
         from simkit import tree as _t
 
         _t.make_removable(scratch)
